@@ -132,7 +132,7 @@ theorem orientedCount_congr (p q : Nat → Nat → Bool) :
 
 theorem getDag_eq_csrOfRows (n : Nat) (edge : Nat → Nat → Bool) (order : List Int) :
     getDag n edge order =
-      csrOfRows (rowsOf n ((dagLoop order order.eraseDups (entriesOf n edge)).filter (·.keep))) := rfl
+      csrOfRows (rowsOf n (dagEntries n edge order)) := rfl
 
 /-- the box of `ListingBox.__cinit__` and the DAG of `get_dag` satisfy the invariant of the top level -/
 theorem top_level_inv (n : Nat) (edge : Nat → Nat → Bool) (order : List Int) (hlen : order.length = n) (k : Nat) :
@@ -143,7 +143,7 @@ theorem top_level_inv (n : Nat) (edge : Nat → Nat → Bool) (order : List Int)
         (getDag n edge order).indices (boxInit (getDag n edge order).indptr k) ∧
       subList (boxInit (getDag n edge order).indptr k) k = List.range n := by
   have hn : (getDag n edge order).indptr.length - 1 = n := getDag_nodes n edge order
-  generalize hrows : rowsOf n ((dagLoop order order.eraseDups (entriesOf n edge)).filter (·.keep)) = rows
+  generalize hrows : rowsOf n (dagEntries n edge order) = rows
   have hrl : rows.length = n := by rw [← hrows, rowsOf_length]
   have hd : getDag n edge order = csrOfRows rows := by rw [getDag_eq_csrOfRows, hrows]
   have hrow : ∀ v, v < n → (csrOfRows rows).row v = (List.range n).filter fun j => edge v j && keepPred order v j := by
